@@ -300,12 +300,18 @@ def run_unit(unit, prop, tier, cfg, rundir, extra_defs=(), tag=""):
         res["samples"] = [(r.get("property"), r.get("description")) for r in results
                           if re.search(r"postcondition|OBL|precondition|loop_invariant", r.get("property", "") + r.get("description", ""))][:6]
         res["named"] = sum(1 for r in results if r.get("status") == "SUCCESS" and re.search(
-            r"postcondition|precondition|loop_invariant|loop_assigns|assigns|OBL|ENV", r.get("property", "") + " " + r.get("description", "")))
+            r"postcondition|precondition|loop_invariant|loop_assigns|loop-contract|assigns|OBL|ENV", r.get("property", "") + " " + r.get("description", "")))
         # vacuity guards
         if creq < unit.get("canaries", 1):
             und = und or "harness has %d canaries, %d required" % (creq, unit.get("canaries", 1))
         n_inv = sum(1 for r in reports if r["clauses"])
-        if n_inv and sum(1 for n in names if "loop_invariant_step" in n or "loop_step" in n) < 1:
+        inj_fns = set(r["function"] for r in reports) | set(r["function"] + "_wrapped_for_contract_checking" for r in reports)
+        # cbmc 6.11 names the obligations of a condition-less loop (for(;;)) just "<fn>.<N>: assertion"
+        anon = sum(1 for r in results if r.get("description") == "assertion" and r.get("property", "").rsplit(".", 1)[0] in inj_fns)
+        for r in results:
+            if r.get("description") == "assertion" and r.get("property", "").rsplit(".", 1)[0] in inj_fns:
+                r["description"] = "loop-contract obligation (invariant base/step, assigns or decreases) of a condition-less loop in " + r["property"].rsplit(".", 1)[0]
+        if n_inv and sum(1 for n in names if "loop_invariant_step" in n or "loop_step" in n) + anon < 1:
             # dfcc names: <fn>.loop_invariant_step.N
             und = und or "loop contract silently dropped (no loop_invariant_step obligation)"
         if unit.get("enforce") and not unit.get("no_post") and not any(
